@@ -57,14 +57,14 @@ func c20R1(p *engine.Prog, r *engine.Report) {
 	hashPar := ap.Params[2]
 	sameAsParHash := func(v ssa.Value) bool {
 		// hash.Hash of the parameter
-		pth := engine.PathOf(v)
-		return strings.HasSuffix(pth, ".Hash") && strings.HasPrefix(pth, hashPar.Name())
+		f, ok := fieldOfParam(v, hashPar)
+		return ok && f == "Hash"
 	}
 	gHas := hasGuards(ap, sameAsParHash)
 	emis := callsTo(ap, "protocol.PushPullManager.makeRequest")
 	sort.Slice(emis, func(i, j int) bool { return emis[i].Pos() < emis[j].Pos() })
 	for i, c := range emis {
-		okArg := engine.Origin(c.Common().Args[2]) == ssa.Value(hashPar) || engine.PathOf(c.Common().Args[2]) == hashPar.Name()
+		okArg := isParam(c.Common().Args[2], hashPar)
 		r.Check(len(gHas) > 0 && okArg && engine.OnlyThroughPass(ap, c.Block(), gHas), "C20-R1", fmt.Sprintf("addPush|emission #%d only for an item the holder lacks", i+1), p.InstrPos(c), "behind !holder.Has(hash.Hash), requests the announced hash", "a pull request is emitted for an item that is already stored (or for another hash than the announced one)")
 		// paired with RegisterPull on the same hash, when the holder supports pending requests
 		paired := false
@@ -185,7 +185,7 @@ func c20R1(p *engine.Prog, r *engine.Report) {
 	if keyV != nil {
 		if kc, ok := engine.Origin(keyV).(*ssa.Call); ok && kc.Call.StaticCallee() != nil {
 			cal := kc.Call.StaticCallee()
-			recvOK := len(kc.Call.Args) > 0 && (engine.Origin(kc.Call.Args[0]) == ssa.Value(hashPar) || strings.TrimPrefix(engine.PathOf(kc.Call.Args[0]), "&") == hashPar.Name())
+			recvOK := len(kc.Call.Args) > 0 && isParam(kc.Call.Args[0], hashPar)
 			reads := map[string]bool{}
 			for _, b := range cal.Blocks {
 				for _, ins := range b.Instrs {
@@ -208,8 +208,10 @@ func c20R1(p *engine.Prog, r *engine.Report) {
 	for _, b := range ap.Blocks {
 		for _, ins := range b.Instrs {
 			if lk, ok := ins.(*ssa.Lookup); ok {
-				if _, isH := loadOfField(lk.X, "PushPullManager", "entryHolders"); isH && strings.HasSuffix(engine.PathOf(lk.Index), ".Type") && strings.HasPrefix(engine.PathOf(lk.Index), hashPar.Name()) {
-					holderByType = true
+				if _, isH := loadOfField(lk.X, "PushPullManager", "entryHolders"); isH {
+					if f, ok := fieldOfParam(lk.Index, hashPar); ok && f == "Type" {
+						holderByType = true
+					}
 				}
 			}
 		}
@@ -518,17 +520,28 @@ func c20R4(p *engine.Prog, r *engine.Report) {
 	if n == 0 {
 		r.Und("C20-R4", "index-based mutations", "", "none found")
 	}
-	r.Floor("C20-R4", 4, "4 index-based mutations in loop")
+	r.Floor("C20-R4", 2, "index-based mutations in loop (4 today)")
 }
 
 // passesAgain: the path from u to c necessarily passes pk again (u belongs to an earlier iteration).
 func passesAgain(u, pk, c ssa.Instruction) bool {
-	// c reachable from u while avoiding pk's block?
 	if u.Block() == pk.Block() {
+		return engine.InstrIndex(u) < engine.InstrIndex(pk)
+	}
+	if u.Block() == c.Block() && engine.InstrIndex(u) < engine.InstrIndex(c) {
 		return false
 	}
-	seen := engine.ReachAvoiding(u.Parent(), u.Block(), nil, map[*ssa.BasicBlock]bool{pk.Block(): true})
-	return !seen[c.Block()]
+	// c reachable from u's successors while avoiding pk's block?
+	avoid := map[*ssa.BasicBlock]bool{pk.Block(): true}
+	for _, s := range u.Block().Succs {
+		if avoid[s] {
+			continue
+		}
+		if engine.ReachAvoiding(u.Parent(), s, nil, avoid)[c.Block()] {
+			return false
+		}
+	}
+	return true
 }
 
 func sameIndex(a, b ssa.Value) bool {
@@ -542,3 +555,47 @@ func sameIndex(a, b ssa.Value) bool {
 }
 
 var _ = types.Typ
+
+// cellOfParam: v is the parameter itself or the local cell it was spilled to (address taken).
+func cellOfParam(v ssa.Value, par *ssa.Parameter) bool {
+	if v == ssa.Value(par) {
+		return true
+	}
+	if a, ok := v.(*ssa.Alloc); ok {
+		st := engine.StoresTo(a)
+		return len(st) == 1 && st[0].Val == ssa.Value(par)
+	}
+	return false
+}
+
+// isParam: v denotes the (by-value) parameter: the parameter, a load of its cell, or the cell's address.
+func isParam(v ssa.Value, par *ssa.Parameter) bool {
+	v = engine.Unwrap(v)
+	if cellOfParam(v, par) {
+		return true
+	}
+	if u, ok := v.(*ssa.UnOp); ok && u.Op.String() == "*" {
+		return cellOfParam(u.X, par)
+	}
+	return engine.Origin(v) == ssa.Value(par)
+}
+
+// fieldOfParam: v is a load of field f of the parameter (through its spill cell if any).
+func fieldOfParam(v ssa.Value, par *ssa.Parameter) (string, bool) {
+	v = engine.Unwrap(v)
+	switch x := v.(type) {
+	case *ssa.UnOp:
+		if fa, ok := x.X.(*ssa.FieldAddr); ok && x.Op.String() == "*" && cellOfParam(fa.X, par) {
+			if _, f, ok := engine.FieldOf(fa); ok {
+				return f, true
+			}
+		}
+	case *ssa.Field:
+		if isParam(x.X, par) {
+			if _, f, ok := engine.FieldOf(x); ok {
+				return f, true
+			}
+		}
+	}
+	return "", false
+}
